@@ -127,7 +127,7 @@ func mustFail(w *World) string {
 		return w.Class
 	}
 	switch w.OutKind {
-	case "missingdir", "isdir", "devfull":
+	case "missingdir", "isdir", "devfull", "symlink-cycle", "symlink-self":
 		return "env:output-" + w.OutKind
 	}
 	return ""
@@ -190,7 +190,7 @@ func sweepFaults(src *choice.Src, ref *Result, w *World) []simrt.Fault {
 // judgeFaulted evaluates one faulted run against the reference run of the same world.
 func judgeFaulted(t Target, w *World, ref *Result, fw *World, fr *Result, st *Stats) (clause, detail string) {
 	var g *FileObs
-	if ref.Exit == 0 && (w.OutKind == "file" || w.OutKind == "symlink") {
+	if ref.Exit == 0 && outIsFile(w) {
 		o := ref.Out
 		g = &o
 	}
@@ -247,7 +247,7 @@ func judgeFaulted(t Target, w *World, ref *Result, fw *World, fr *Result, st *St
 			return "corrupt-read-differs-from-file-with-same-bytes:" + strings.Join(d, "+"), explain(cr, fr)
 		}
 		var cg *FileObs
-		if cr.Exit == 0 && (w.OutKind == "file" || w.OutKind == "symlink") {
+		if cr.Exit == 0 && outIsFile(w) {
 			o := cr.Out
 			cg = &o
 		}
@@ -331,7 +331,7 @@ func CheckC10(t Target, src *choice.Src, st *Stats) *Violation {
 	}
 	// ---- pass 1: no injected faults
 	var g *FileObs
-	if ref.Exit == 0 && (w.OutKind == "file" || w.OutKind == "symlink") {
+	if ref.Exit == 0 && outIsFile(w) {
 		o := ref.Out
 		g = &o
 	}
@@ -479,7 +479,7 @@ func replayC10(t Target, v *Violation) (string, string) {
 		return "", ""
 	}
 	var g *FileObs
-	if ref.Exit == 0 && (w.OutKind == "file" || w.OutKind == "symlink") {
+	if ref.Exit == 0 && outIsFile(w) {
 		o := ref.Out
 		g = &o
 	}
@@ -519,4 +519,9 @@ func replayC10(t Target, v *Violation) (string, string) {
 		return fmt.Sprintf("%s%s:%s:%s", pre, f.OpKind, f.Kind, c), d
 	}
 	return "", ""
+}
+
+// outIsFile: -o ends up as (a link to) a regular file whose bytes can be compared.
+func outIsFile(w *World) bool {
+	return w.OutKind == "file" || w.OutKind == "symlink" || w.OutKind == "symlink-dangling"
 }
